@@ -3,15 +3,16 @@
 import json, sys
 props = {json.loads(l)["id"]: json.loads(l) for l in open("/verif/properties.jsonl")}
 ids = [a for a in sys.argv[1:] if not a.startswith("--")]
-ROUND3 = "--round3" in sys.argv
+ROUND4 = "--round4" in sys.argv
+ROUND3 = "--round3" in sys.argv or ROUND4
 ROUND2 = "--round2" in sys.argv or ROUND3
-K1, K2 = (5, 6) if ROUND3 else ((3, 4) if ROUND2 else (1, 2))
+K1, K2 = (7, 8) if ROUND4 else ((5, 6) if ROUND3 else ((3, 4) if ROUND2 else (1, 2)))
 def earlier(i):
     out = []
-    for k in ((1, 2, 3, 4) if ROUND3 else (1, 2)):
+    for k in ((1, 2, 3, 4, 5, 6) if ROUND4 else ((1, 2, 3, 4) if ROUND3 else (1, 2))):
         try:
             m = json.load(open("/verif/seeded/%s-%d/meta.json" % (i, k)))
-            out.append("  - already tried (do something DIFFERENT, other code site and other mechanism): " + (m.get("breaks") or "")[:300])
+            out.append("  - already tried (do something DIFFERENT, other code site and other mechanism): " + (m.get("breaks") or "")[:220])
         except Exception:
             pass
     return "\n".join(out)
